@@ -9,6 +9,7 @@ open Irismod Irismod.Sdk Irismod.Farm Irismod.Spec Irismod.Spec.C06 Irismod.Prop
 #print axioms budget_can_fail
 #print axioms payout_step_bound
 #print axioms fair_partial
+#print axioms fairQ_partial
 #print axioms harvest_independence
 #print axioms release_truncation
 -- non-vacuity: the (Clean) F-farm-1 history releases rewards (rule.released = 2 of total 100, remaining 98), books three
